@@ -116,7 +116,7 @@ func C17(r *drv.Run) {
 	if !quick(r) {
 		n = 80000
 	}
-	r.Rule = "result lists empty / one / many from find and replace commands, flat captures and named-loop (nested) variables, produced by fixed programs that capture arbitrary bytes and by the any-program generator, over texts with quotes, backslashes, control bytes, <>&, U+2028/2029, multi-byte UTF-8, invalid UTF-8, and code points of every plane (format characters incl. astral tag characters, C1 controls, non-characters, private use, U+10FFFF; fixed and seeded random). Also RunFiles results whose file names need escaping or are spelled in a non-canonical way (quotes, backslash, <&>, non-ASCII, newline and tab in names; dir//name, dir/./name, dir/sub/../name; a directory argument with a trailing slash): the filename member must be the in-memory name, byte for byte. Also lists of 511 .. 20 000 matches (sizes at and next to powers of two and ten, every thousand, ten seed-chosen sizes), and EVERY list length from 1 to 1 500 (thorough: 9 000) rendered both ways and validated inside the worker. After the texts of a case a result list that has been rendered is refilled in place with the matches of another text (same length) and rendered again: it must give that other list's document. Oracle: Json() and FormattedJson() return without panic, json.Valid, decode to equal documents, one object per match whose fields equal the in-memory match (replacement present iff the match has one); exact string equality is demanded where the in-memory strings are valid UTF-8. Non-trivial = a result list with >= 1 match rendered and decoded; distinct by (program, text)."
+	r.Rule = "result lists empty / one / many from find and replace commands, flat captures and named-loop (nested) variables, produced by fixed programs that capture arbitrary bytes and by the any-program generator, over texts with quotes, backslashes, control bytes, <>&, U+2028/2029, multi-byte UTF-8, invalid UTF-8, and code points of every plane (format characters incl. astral tag characters, C1 controls, non-characters, private use, U+10FFFF; fixed and seeded random). Also RunFiles results whose file names need escaping or are spelled in a non-canonical way (quotes, backslash, <&>, non-ASCII, newline and tab in names; dir//name, dir/./name, dir/sub/../name; a directory argument with a trailing slash): the filename member must be the in-memory name, byte for byte. Also lists of 511 .. 20 000 matches (sizes at and next to powers of two and ten, every thousand, ten seed-chosen sizes), and EVERY list length from 1 to 1 500 (thorough: 9 000) rendered both ways and validated inside the worker; the nil list, the empty list and an emptied list (what a caller collecting results builds itself) must render as equal documents both ways. After the texts of a case a result list that has been rendered is refilled in place with the matches of another text (same length) and rendered again: it must give that other list's document. Oracle: Json() and FormattedJson() return without panic, json.Valid, decode to equal documents, one object per match whose fields equal the in-memory match (replacement present iff the match has one); exact string equality is demanded where the in-memory strings are valid UTF-8. Non-trivial = a result list with >= 1 match rendered and decoded; distinct by (program, text)."
 	r.Assumptions = []string{"strings that are not valid UTF-8 cannot round-trip through JSON; for those only validity, document equality of the two renderings and all non-string fields are demanded"}
 	fixed := len(c17Programs)
 	r.Exec(6*fixed+n, drv.ExecOpts{Batch: 100}, func(i int) *drv.Item {
@@ -394,10 +394,11 @@ func c17Large(r *drv.Run) {
 				return
 			}
 			if res.Mismatch != "" {
-				r.Violate(&drv.Violation{Sig: "rendering-of-some-list-length-is-not-valid-json", Src: scanSrc, Case: &c, Detail: map[string]any{"what": res.Mismatch, "lengths": fmt.Sprintf("%d..%d", rg[0], rg[1]-1)}})
+				r.Violate(&drv.Violation{Sig: c17ScanSig(res.Mismatch), Src: scanSrc, Case: &c, Detail: map[string]any{"what": res.Mismatch, "lengths": fmt.Sprintf("%d..%d", rg[0], rg[1]-1)}})
 				return
 			}
 			r.Count("list_lengths_rendered_and_validated", res.Counters["lengths_rendered"])
+			r.Count("nil_and_empty_lists_rendered_both_ways", res.Counters["special_lists_rendered"])
 			r.Nontrivial(fmt.Sprintf("scan|%d", rg[0]))
 		}}
 	})
@@ -427,4 +428,11 @@ func c17Large(r *drv.Run) {
 			}
 		}}
 	})
+}
+
+func c17ScanSig(m string) string {
+	if strings.Contains(m, " list ") && !strings.Contains(m, "list of") {
+		return "nil-or-empty-list-renders-differently-both-ways"
+	}
+	return "rendering-of-some-list-length-is-not-valid-json"
 }
